@@ -140,14 +140,23 @@ def prefetch_to_device(iterator, size, devices=None):
   def _prefetch(xs):
     return jax.device_put_sharded(list(xs), devices)
 
+  error = None
+
   def enqueue(n):  # Enqueues *up to* `n` elements from the iterator.
-    for data in itertools.islice(iterator, n):
-      queue.append(jax.tree_util.tree_map(_prefetch, data))
+    nonlocal error
+    try:
+      for data in itertools.islice(iterator, n):
+        queue.append(jax.tree_util.tree_map(_prefetch, data))
+    except Exception as e:  # pylint: disable=broad-except
+      error = e  # deliver the items that are already buffered first.
 
   enqueue(size)  # Fill up the buffer.
   while queue:
     yield queue.popleft()
-    enqueue(1)
+    if error is None:
+      enqueue(1)
+  if error is not None:
+    raise error
 
 
 def _scan_nd(body_fn, init, xs, n=1, unroll=(1,)):
